@@ -2,6 +2,8 @@
 of the named properties) and benign variants (must stay silent).  Edits are
 exact-text replacements in a scratch copy; an edit that no longer applies is
 reported as EDIT-ERROR (the catalogue must follow the tree)."""
+import os
+
 
 Q = "qkeras/quantizers.py"
 U = "qkeras/utils.py"
@@ -763,4 +765,9 @@ BENIGN = {
         "- 1.0\n",
         "    p = K.tanh(x) if self.use_real_tanh else (_sigmoid(x) - 0.5) "
         "* 2.0\n")]),
+    # the benign twin of C19-seed5: output sizes from the hyper-parameters,
+    # dilation included (kept as a patch file)
+    "b40_count_from_hyperparameters": dict(props=["C19"], edits=os.path.join(
+        os.path.dirname(os.path.abspath(__file__)), "benign_patches",
+        "b40_count_from_hyperparameters.diff")),
 }
